@@ -1,6 +1,7 @@
 package main
 
 import (
+	"context"
 	"bytes"
 	"fmt"
 	"io"
@@ -199,7 +200,7 @@ func runBuffer(sc Scenario, tr *Trace, seed int64) {
 		*h = bufHandler{scripts: scripts, origBody: body, method: method}
 		mk := func() *http.Request {
 			var rd io.Reader = bytes.NewReader(body)
-			if framing == "chunked" {
+			if framing == "chunked" || framing == "unknown" {
 				rd = io.MultiReader(bytes.NewReader(body)) // hides the length
 			}
 			req := httptest.NewRequest(method, "http://front.example.com/a%2Fb/c?x=1&y=%20z", rd)
@@ -212,6 +213,10 @@ func runBuffer(sc Scenario, tr *Trace, seed int64) {
 			if framing == "chunked" {
 				req.ContentLength = -1
 				req.TransferEncoding = []string{"chunked"}
+			}
+			if framing == "unknown" { // a body of unknown length without HTTP/1.1 framing: how an HTTP/2 request without
+				req.ContentLength = -1 // content-length, or a request built by a middleware above, reaches the buffer
+				req.TransferEncoding = nil
 			}
 			return req
 		}
@@ -242,6 +247,11 @@ func runBuffer(sc Scenario, tr *Trace, seed int64) {
 			srv.Close()
 		} else {
 			rec := httptest.NewRecorder()
+			if boolOr(st, "precancel", false) { // the client has gone away already (or a deadline set above has passed)
+				cctx, cancel := context.WithCancel(req.Context())
+				cancel()
+				req = req.WithContext(cctx)
+			}
 			func() {
 				defer func() {
 					if p := recover(); p != nil {
